@@ -900,7 +900,15 @@ class Abs:
         kw = {}
         for k in e.keywords:
             if k.arg is None:
-                kw.update(self.ev(k.value))
+                extra = self.ev(k.value)
+                if isinstance(extra, dict):
+                    kw.update(extra)
+                elif hasattr(extra, "keys") and hasattr(extra, "__getitem__"):
+                    kw.update({kk: extra[kk] for kk in extra.keys()})
+                elif extra is None or isinstance(extra, (bool, int, float, str, list, tuple)):
+                    raise Raised("TypeError(argument after ** must be a mapping, not %s)" % type(extra).__name__)
+                else:
+                    raise Undecided("** of %r in a call" % (extra,))
             else:
                 kw[k.arg] = self.ev(k.value)
         if dn in self.summaries:
